@@ -674,10 +674,21 @@ impl<T: Smp> Inst<T> {
         let out_mode = gs(op, "out", "next");
         // ---- input buffers
         let is_partial = opname == "partial";
+        // ragged partial chunks: "kpc" = frames supplied per channel (partial), "zpc" = zero padding
+        // from that frame on per channel (the core twin)
+        let per_ch = |key: &str, c: usize| -> Option<i64> {
+            op.get(key)
+                .and_then(|a| a.as_array())
+                .and_then(|a| a.get(c))
+                .and_then(|x| x.as_i64())
+                .map(|v| v.max(0).min(in_next as i64))
+        };
         let mut win: Vec<Vec<T>> = Vec::with_capacity(in_ch);
         for c in 0..in_ch {
             let mut len = if is_partial {
-                if k_partial < 0 {
+                if let Some(k) = per_ch("kpc", c) {
+                    k as usize
+                } else if k_partial < 0 {
                     0
                 } else {
                     k_partial as usize
@@ -694,7 +705,8 @@ impl<T: Smp> Inst<T> {
             if c < nch && !active(c) && empty_masked {
                 len = 0;
             }
-            win.push(self.fill_input(c, len, zero_from));
+            let zf = per_ch("zpc", c).unwrap_or(zero_from);
+            win.push(self.fill_input(c, len, zf));
         }
         for v in &win {
             for x in v {
